@@ -295,7 +295,7 @@ ArgsConform(S, fdef, m) ==
 (* type sees every position like a MaybeUndefined (get -> None / is_null / typed accessor).  *)
 (* The projection is total: a value that does not fit the shape is reported as "bad" (only   *)
 (* deviations can produce such values; the harness reports them in the same way).            *)
-Bad(p) == [k |-> "bad", got |-> p.k]
+Bad(p) == [k |-> "bad"]
 PrimOK(S, n, p) == IF IsEnum(S, n) THEN p.k = "enum" /\ IsMember(S, n, p.v) ELSE p.k = ScalarKind(n)
 
 RECURSIVE DynShape(_, _), DynRt(_, _)
@@ -317,7 +317,7 @@ Bind(S, dyn, rt, p) ==
                   known == [j \in 1..Len(fs) |-> [key |-> fs[j].name,
                               val |-> Bind(S, dyn, IF dyn THEN DynRt(S, fs[j].ty) ELSE fs[j].rt, Lookup(p.entries, fs[j].name))]]
                   extra == SelectSeq(p.entries, LAMBDA x : ~HasName(fs, x.key))
-              IN Obj(known \o [i \in 1..Len(extra) |-> [key |-> extra[i].key, val |-> [k |-> "bad", got |-> "unknown"]]])
+              IN Obj(known \o [i \in 1..Len(extra) |-> [key |-> extra[i].key, val |-> [k |-> "bad"]]])
     [] rt.r = "oneof" ->
          IF p.k = "obj" /\ Len(p.entries) = 1 /\ HasName(S.inputs[rt.n].fields, p.entries[1].key)
          THEN [k |-> "oneof", key |-> p.entries[1].key, val |-> Bind(S, dyn, ByName(S.inputs[rt.n].fields, p.entries[1].key).rt, p.entries[1].val)]
